@@ -18,10 +18,9 @@ def dval(ex, st, term):
         return 1
     if z3.is_false(s):
         return 0
-    r, m = ex.solve(st, [])
-    if r != 'sat':
+    v = ex.eval_on_path(st, term)
+    if v is None:
         return None
-    v = m.eval(term, model_completion=True)
     if z3.is_int_value(v):
         vv = v.as_long()
     elif z3.is_true(v):
